@@ -310,6 +310,13 @@ impl<K: Copy + Ord, V> IndexedPriorityQueue<K, V> {
 
 #[cfg(nexosim_verif)]
 impl<K: Copy + Ord, V: Clone> IndexedPriorityQueue<K, V> {
+    /// Moves the epoch counter forward, for the verification harness.
+    pub(crate) fn verif_set_next_epoch(&mut self, epoch: u64) {
+        if epoch > self.next_epoch {
+            self.next_epoch = epoch;
+        }
+    }
+
     /// Raw layout, for the verification harness: heap items as `(key, epoch,
     /// slab_idx)`, slab nodes as `Ok((value, heap_idx))` or `Err(next_free)`,
     /// the head of the free list and the next epoch.
